@@ -45,8 +45,10 @@ import (
 // ---------------------------------------------------------------- records and logs
 
 // SumRecordOf returns record id of the given side: module path, version, record text.
-// Every 5th record has an upper-case letter in the path, every 7th an upper-case version,
-// every 3rd a third line.
+// Every 5th record has capital letters in the path and every 7th in the version, chosen so that
+// each letter A-Z is the ONLY capital of some path (ids 5k+2, letter k mod 26; doubled for odd k)
+// and of some version (ids 7k+3); a few real-world mixed-case shapes are interspersed
+// (github.com/ZupIT, github.com/BurntSushi, -RC1).  Every 3rd record has a third line.
 func SumRecordOf(seed int64, side int, id int) (path, vers string, text []byte) {
 	tag := "m"
 	if side == 1 {
@@ -54,11 +56,27 @@ func SumRecordOf(seed int64, side int, id int) (path, vers string, text []byte) 
 	}
 	path = fmt.Sprintf("ex%d.test/%s%d", id%3, tag, id)
 	if id%5 == 2 {
-		path = fmt.Sprintf("ex%d.test/%sMod%dX", id%3, tag, id)
+		k := id / 5
+		l := string(rune('A' + k%26))
+		switch {
+		case id%55 == 2:
+			path = fmt.Sprintf("github.com/ZupIT/%sx%d", tag, id)
+		case id%55 == 7:
+			path = fmt.Sprintf("github.com/BurntSushi/%stoml%d", tag, id)
+		case k%2 == 1:
+			path = fmt.Sprintf("ex%d.test/%sja%s%s%d", id%3, tag, l, l, id)
+		default:
+			path = fmt.Sprintf("ex%d.test/%s/%seta%d/pkg", id%3, tag, l, id)
+		}
 	}
 	vers = fmt.Sprintf("v1.%d.%d", id/10, id%10)
 	if id%7 == 3 {
-		vers = fmt.Sprintf("v0.%d.0-RC%d", id, id%4)
+		k := id / 7
+		if id%77 == 3 {
+			vers = fmt.Sprintf("v0.%d.0-RC%d", id, 1+id%4)
+		} else {
+			vers = fmt.Sprintf("v0.%d.0-%sulu", id, string(rune('A'+k%26)))
+		}
 	}
 	return path, vers, SumRecordText(seed, side, path, vers, id%3 == 1)
 }
